@@ -3,7 +3,7 @@ import json, os, sys, time, hashlib, random
 
 import dsl, tlc, loomrun
 
-VERIF = "/verif"
+VERIF = os.path.dirname(os.path.dirname(os.path.abspath(__file__)))
 KNOWN = os.path.join(VERIF, "known_findings.json")
 
 
